@@ -53,6 +53,65 @@ type mix struct {
 	Stored bool `json:"stored,omitempty"`
 }
 
+// dupNames reports whether an integration name occurs more than once among the database rows or among the
+// file's integrations.
+func (m mix) dupNames() bool {
+	for _, l := range [][]igSpec{m.FileIGs, m.DBIGs} {
+		seen := map[string]bool{}
+		for _, ig := range l {
+			if seen[ig.Name] {
+				return true
+			}
+			seen[ig.Name] = true
+		}
+	}
+	return false
+}
+
+// resolve lists the acceptable readings of a mix in which an integration NAME occurs more than once among
+// the database rows (shovel.integrations has no unique index and the dashboard's save is a plain insert) or
+// among the file's integrations: entries of one name are ONE integration, so exactly one of them counts -
+// the property does not say which, every choice is acceptable. Database entries of a name the file defines
+// never count. A mix with unique names resolves to itself.
+func resolve(m mix) []mix {
+	out := []mix{{FileSrcs: m.FileSrcs, DBSrcs: m.DBSrcs, Stored: m.Stored}}
+	inFile := map[string]bool{}
+	pick := func(l []igSpec, db bool) {
+		var names []string
+		by := map[string][]igSpec{}
+		for _, ig := range l {
+			if db && inFile[ig.Name] {
+				continue
+			}
+			if _, ok := by[ig.Name]; !ok {
+				names = append(names, ig.Name)
+			}
+			by[ig.Name] = append(by[ig.Name], ig)
+		}
+		for _, n := range names {
+			var next []mix
+			for _, o := range out {
+				for _, cand := range by[n] {
+					c := o
+					if db {
+						c.DBIGs = append(append([]igSpec{}, o.DBIGs...), cand)
+					} else {
+						c.FileIGs = append(append([]igSpec{}, o.FileIGs...), cand)
+					}
+					next = append(next, c)
+				}
+			}
+			out = next
+		}
+	}
+	pick(m.FileIGs, false)
+	for _, ig := range m.FileIGs {
+		inFile[ig.Name] = true
+	}
+	pick(m.DBIGs, true)
+	return out
+}
+
 // dupRefs reports whether the integration names one source more than once.
 func dupRefs(ig igSpec) bool {
 	seen := map[string]bool{}
